@@ -76,7 +76,7 @@ def build_source(form, pos, mention, own):
     elif mention == "later-note":
         b += f" refers to {MZ} here"
     # one-word values that are not plain identifiers must survive as well
-    head = "# Source page #inh +proj\n# hk::hv [spaced:: two words] [dash:: a-b] [u:: https://ex.com/p/q.html] [w:: C:\\notes\\today\\1] [esc:: a\\\\b]\n\n"
+    head = "# Source page #inh +proj\n# hk::hv [spaced:: two words] [dash:: a-b] [u:: https://ex.com/p/q.html] [w:: C:\\notes\\today\\1] [esc:: a\\\\b] [old:: 1999-12-31] [zz:: 240305#0I]\n\n"
     if pos == "first":
         body = "\n".join(note + [a, b]) + "\n"
         if mention.startswith("earlier"):
